@@ -603,21 +603,40 @@ Proof.
   rewrite le_decode_encode_small by exact Hv. reflexivity.
 Qed.
 
-Lemma read_uleb_ok maxv br v r :
-  v < two64 -> v <= maxv -> read_uleb maxv (br, uleb_encode v ++ r) = Some (v, (br, r)).
+Lemma uleb_not_big v rest : v < two64 -> uleb_is_big (uleb_encode v ++ rest) v = false.
 Proof.
-  intros Hv Hm. unfold read_uleb. cbn [fst snd]. rewrite uleb_decode_u64_encode by exact Hv.
+  intro Hv. unfold uleb_is_big. rewrite uleb_span_encode.
+  pose proof (uleb_encode_length_u64 v Hv) as L.
+  replace (length (uleb_encode v) <=? 18)%nat with true by (symmetry; apply Nat.leb_le; lia).
+  replace (v <? two64) with true by (symmetry; apply N.ltb_lt; exact Hv).
+  rewrite orb_true_r. reflexivity.
+Qed.
+
+Lemma read_uleb_raw_ok cfg br v r :
+  br + len (uleb_encode v) <= max_doc_size cfg ->
+  read_uleb_raw cfg (br, uleb_encode v ++ r) =
+  Some (v, uleb_is_big (uleb_encode v ++ r) v, length (uleb_encode v), (br + len (uleb_encode v), r)).
+Proof.
+  intro H. unfold read_uleb_raw. cbn [fst snd]. rewrite uleb_decode_encode, uleb_span_encode.
+  fold (len (uleb_encode v)). rewrite mark_ok by exact H. reflexivity.
+Qed.
+
+Lemma read_uleb_ok cfg maxv br v r :
+  v < two64 -> v <= maxv -> br + len (uleb_encode v) <= max_doc_size cfg ->
+  read_uleb cfg maxv (br, uleb_encode v ++ r) = Some (v, (br + len (uleb_encode v), r)).
+Proof.
+  intros Hv Hm H. unfold read_uleb. rewrite read_uleb_raw_ok by exact H. rewrite uleb_not_big by exact Hv.
   replace (maxv <? v) with false by (symmetry; apply N.ltb_ge; exact Hm). reflexivity.
 Qed.
 
 Lemma read_identifier_ok cfg br id r :
-  1 <= len id <= identifier_max_length -> br + len id <= max_doc_size cfg ->
-  read_identifier cfg (br, enc_identifier id ++ r) = Some (id, (br + len id, r)).
+  1 <= len id <= identifier_max_length -> br + len (enc_identifier id) <= max_doc_size cfg ->
+  read_identifier cfg (br, enc_identifier id ++ r) = Some (id, (br + len (enc_identifier id), r)).
 Proof.
-  intros [H1 H2] H. unfold read_identifier, enc_identifier. rewrite <- app_assoc.
-  rewrite read_uleb_ok; [|unfold identifier_max_length, two64 in *; lia|exact H2].
+  intros [H1 H2] H. unfold read_identifier, enc_identifier in *. rewrite <- app_assoc. rewrite len_app in *.
+  rewrite read_uleb_ok; [|unfold identifier_max_length, two64 in *; lia|exact H2|lia].
   replace (len id =? 0) with false by (symmetry; apply N.eqb_neq; lia).
-  apply read_bytes_ok; [reflexivity | exact H].
+  rewrite (read_bytes_ok cfg _ (len id)) by (try reflexivity; lia). rewrite N.add_assoc. reflexivity.
 Qed.
 
 (* [tok] decodes, in front of any continuation, to exactly the events [evs]. *)
@@ -714,7 +733,7 @@ Proof.
   intros Hn Hv. tok_start br rest Hfit. rewrite classify_var.
   unfold dec_var_int. rewrite max_bigint_bytes. rewrite <- app_assoc.
   rewrite read_uleb_ok by (unfold two64; lia).
-  rewrite (read_bytes_ok cfg (br + 1) (N.of_nat n)) by (try apply len_le_encode; lia).
+  rewrite (read_bytes_ok cfg _ (N.of_nat n)) by (try apply len_le_encode; lia).
   rewrite le_decode_encode_small by exact Hv.
   unfold var_event.
   destruct (Nat.leb_spec n 8) as [L|L].
@@ -782,24 +801,37 @@ Variable cfg : dcfg.
 Lemma classify_decimal : classify cbeTypeDecimal = KDecimal.
 Proof. reflexivity. Qed.
 
-Lemma dec_decimal_infinity (neg : bool) rest :
-  dec_decimal ((if neg then cfNegativeInfinity else cfInfinity) ++ rest) = Some (EDecimal (DInf neg), rest).
-Proof. destruct neg; reflexivity. Qed.
-
-Lemma dec_decimal_nan (s : bool) rest :
-  dec_decimal ((if s then cfSignalingNan else cfQuietNan) ++ rest) = Some (EDecimal (if s then DSNan else DQNan), rest).
-Proof. destruct s; reflexivity. Qed.
+Lemma dec_decimal_special (x : N) e br rest :
+  In (x, e) [(128, DQNan); (129, DSNan); (130, DInf false); (131, DInf true)] ->
+  br + 2 <= max_doc_size cfg ->
+  dec_decimal cfg (br, x :: 0 :: rest) = Some (EDecimal e, (br + 2, rest)).
+Proof.
+  intros Hin H. unfold dec_decimal, read_uleb_raw. cbn [fst snd].
+  cbn [In] in Hin. destruct Hin as [E|[E|[E|[E|[]]]]]; injection E as <- <-;
+    match goal with |- context [uleb_decode ?b] =>
+      let v := eval lazy in (uleb_decode b) in change (uleb_decode b) with v;
+      let n := eval lazy in (uleb_span b) in change (uleb_span b) with n;
+      let g := eval lazy in (uleb_is_big b) in change (uleb_is_big b) with g
+    end;
+    change (N.of_nat 2) with 2; rewrite mark_ok by exact H; reflexivity.
+Qed.
 
 Lemma tok_infinity neg : tok_ok cfg (enc_infinity neg) [EDecimal (DInf neg)].
 Proof.
-  unfold enc_infinity. tok_start br rest Hfit. rewrite classify_decimal. cbn [snd fst].
-  rewrite dec_decimal_infinity. unfold tok_one. eexists; split; [reflexivity|]. norm_len. lia.
+  unfold enc_infinity. destruct neg.
+  - change cfNegativeInfinity with [131; 0]. tok_start br rest Hfit. rewrite classify_decimal.
+    rewrite (dec_decimal_special 131 (DInf true)) by (cbn; auto 6; lia). unfold tok_one. tok_done.
+  - change cfInfinity with [130; 0]. tok_start br rest Hfit. rewrite classify_decimal.
+    rewrite (dec_decimal_special 130 (DInf false)) by (cbn; auto 6; lia). unfold tok_one. tok_done.
 Qed.
 
 Lemma tok_nan s : tok_ok cfg (enc_nan s) [EDecimal (if s then DSNan else DQNan)].
 Proof.
-  unfold enc_nan. tok_start br rest Hfit. rewrite classify_decimal. cbn [snd fst].
-  rewrite dec_decimal_nan. unfold tok_one. eexists; split; [reflexivity|]. norm_len. lia.
+  unfold enc_nan. destruct s.
+  - change cfSignalingNan with [129; 0]. tok_start br rest Hfit. rewrite classify_decimal.
+    rewrite (dec_decimal_special 129 DSNan) by (cbn; auto 6; lia). unfold tok_one. tok_done.
+  - change cfQuietNan with [128; 0]. tok_start br rest Hfit. rewrite classify_decimal.
+    rewrite (dec_decimal_special 128 DQNan) by (cbn; auto 6; lia). unfold tok_one. tok_done.
 Qed.
 
 Lemma tok_zero neg : tok_ok cfg (enc_zero neg) [if neg then ENegInt 0 else EInt 0].
@@ -864,18 +896,16 @@ Definition id_ok (id : bytes) : Prop := 1 <= len id <= identifier_max_length.
 
 Lemma tok_ref_local id : id_ok id -> tok_ok cfg (cbeTypeLocalReference :: enc_identifier id) [ERefLocal id].
 Proof.
-  intro H. tok_start br rest Hfit. unfold enc_identifier in Hfit. norm_len_in Hfit.
+  intro H. tok_start br rest Hfit.
   change (classify cbeTypeLocalReference) with KRefLocal.
-  rewrite read_identifier_ok by (try exact H; lia). unfold tok_one.
-  eexists; split; [reflexivity|]. unfold enc_identifier. norm_len. lia.
+  rewrite read_identifier_ok by (try exact H; lia). unfold tok_one. tok_done.
 Qed.
 
 Lemma tok_record id : id_ok id -> tok_ok cfg (cbeTypeRecord :: enc_identifier id) [ERecord id].
 Proof.
-  intro H. tok_start br rest Hfit. unfold enc_identifier in Hfit. norm_len_in Hfit.
+  intro H. tok_start br rest Hfit.
   change (classify cbeTypeRecord) with KRecord.
-  rewrite read_identifier_ok by (try exact H; lia). unfold tok_one.
-  eexists; split; [reflexivity|]. unfold enc_identifier. norm_len. lia.
+  rewrite read_identifier_ok by (try exact H; lia). unfold tok_one. tok_done.
 Qed.
 
 Lemma classify_plane7f : classify cbeTypePlane7f = KPlane7f.
@@ -886,18 +916,16 @@ Ltac tok_start7f br rest Hfit :=
 
 Lemma tok_marker id : id_ok id -> tok_ok cfg ([cbeTypePlane7f; cbeTypeMarker] ++ enc_identifier id) [EMarker id].
 Proof.
-  intro H. tok_start7f br rest Hfit. unfold enc_identifier in Hfit. norm_len_in Hfit.
+  intro H. tok_start7f br rest Hfit.
   change (classify7f cbeTypeMarker) with K7Marker.
-  rewrite read_identifier_ok by (try exact H; lia). unfold tok_one.
-  eexists; split; [reflexivity|]. unfold enc_identifier. norm_len. lia.
+  rewrite read_identifier_ok by (try exact H; lia). unfold tok_one. tok_done.
 Qed.
 
 Lemma tok_record_type id : id_ok id -> tok_ok cfg ([cbeTypePlane7f; cbeTypeRecordType] ++ enc_identifier id) [ERecordType id].
 Proof.
-  intro H. tok_start7f br rest Hfit. unfold enc_identifier in Hfit. norm_len_in Hfit.
+  intro H. tok_start7f br rest Hfit.
   change (classify7f cbeTypeRecordType) with K7RecordType.
-  rewrite read_identifier_ok by (try exact H; lia). unfold tok_one.
-  eexists; split; [reflexivity|]. unfold enc_identifier. norm_len. lia.
+  rewrite read_identifier_ok by (try exact H; lia). unfold tok_one. tok_done.
 Qed.
 
 Lemma tok_uid d : len d = 16 -> tok_ok cfg (cbeTypeUID :: d) [EUid d].
@@ -976,17 +1004,18 @@ Proof.
     rewrite A2, A3, <- Hd. cbn [chunk_events]. rewrite app_nil_r.
     destruct (N.eqb_spec (len d) 0) as [E|E].
     + apply len_zero in E. subst d. cbn [app]. eexists; split; [reflexivity|]. norm_len. lia.
-    + rewrite (read_bytes_ok cfg br (len d)) by (try reflexivity; lia). cbn [app].
+    + rewrite (read_bytes_ok cfg _ (len d)) by (try reflexivity; lia). cbn [app].
       eexists; split; [reflexivity|]. norm_len. lia.
   - rewrite read_uleb_ok by (try exact B1; unfold max_u64, two64 in *; lia).
     rewrite B2, B3, <- Hd. cbn [chunk_events].
+    set (u := len (uleb_encode (chunk_header n true))) in *.
     destruct (N.eqb_spec (len d) 0) as [E|E].
     + apply len_zero in E. subst d. cbn [app].
-      destruct (IH f br rest) as (br' & E1 & E2); [cbn [length] in Hfuel; lia | unfold fits; norm_len; norm_len_in Hfit; lia|].
-      rewrite E1. eexists; split; [reflexivity|]. norm_len. lia.
-    + rewrite (read_bytes_ok cfg br (len d)) by (try reflexivity; lia).
-      destruct (IH f (br + len d) rest) as (br' & E1 & E2); [cbn [length] in Hfuel; lia | unfold fits; norm_len; lia|].
-      rewrite E1. cbn [app]. eexists; split; [reflexivity|]. norm_len. lia.
+      destruct (IH f (br + u) rest) as (br' & E1 & E2); [cbn [length] in Hfuel; lia | unfold fits; norm_len; norm_len_in Hfit; lia|].
+      rewrite E1. eexists; split; [reflexivity|]. norm_len. fold u. lia.
+    + rewrite (read_bytes_ok cfg _ (len d)) by (try reflexivity; lia).
+      destruct (IH f (br + u + len d) rest) as (br' & E1 & E2); [cbn [length] in Hfuel; lia | unfold fits; norm_len; lia|].
+      rewrite E1. cbn [app]. eexists; split; [reflexivity|]. norm_len. fold u. lia.
 Qed.
 
 Lemma chunks_fuel_enough br cs rest : (length cs <= chunks_fuel (br, enc_chunks cs ++ rest))%nat.
@@ -1055,6 +1084,7 @@ Definition arr_ok (t : N) : bool :=
 
 Definition long_check (t : N) : bool :=
   if arr_ok t then
+    match array_info t with Some _ => true | None => false end &&
     match enc_array_header t with
     | Some [c] => match classify c with KChunked t' => t' =? t | _ => false end
     | Some [p; c] => (p =? cbeTypePlane7f) && match classify7f c with K7Chunked t' => t' =? t | _ => false end
@@ -1075,7 +1105,16 @@ Lemma arr_ok_header t : arr_ok t = true -> exists hd, enc_array_header t = Some 
 Proof.
   intro H. pose proof long_sweep as S. rewrite forallb_forall in S.
   specialize (S t ltac:(apply nseq_In; pose proof (arr_ok_lt t H); cbn; lia)).
-  unfold long_check in S. rewrite H in S. destruct (enc_array_header t) as [hd|]; [eauto | discriminate].
+  unfold long_check in S. rewrite H in S. apply andb_true_iff in S as [_ S].
+  destruct (enc_array_header t) as [hd|]; [eauto | discriminate].
+Qed.
+
+Lemma arr_ok_info t : arr_ok t = true -> array_info t <> None.
+Proof.
+  intro H. pose proof long_sweep as S. rewrite forallb_forall in S.
+  specialize (S t ltac:(apply nseq_In; pose proof (arr_ok_lt t H); cbn; lia)).
+  unfold long_check in S. rewrite H in S. apply andb_true_iff in S as [S _].
+  destruct (array_info t); [discriminate | discriminate].
 Qed.
 
 Lemma tok_long_array t hd cs :
@@ -1084,7 +1123,7 @@ Lemma tok_long_array t hd cs :
 Proof.
   intros Ht Hh Hcs. pose proof long_sweep as S. rewrite forallb_forall in S.
   specialize (S t ltac:(apply nseq_In; pose proof (arr_ok_lt t Ht); cbn; lia)).
-  unfold long_check in S. rewrite Ht, Hh in S.
+  unfold long_check in S. rewrite Ht, Hh in S. apply andb_true_iff in S as [_ S].
   destruct hd as [|c1 [|c2 [|c3 hd]]]; try discriminate.
   - destruct (classify c1) eqn:K; try discriminate. apply N.eqb_eq in S. subst.
     cbn [app]. tok_start br rest Hfit. rewrite K. unfold dec_array.
@@ -1109,8 +1148,9 @@ Proof.
   tok_start7f br rest Hfit. change (classify7f cbeTypeMedia) with K7Media.
   unfold dec_media. rewrite <- !app_assoc.
   rewrite read_uleb_ok by (try exact Hm; unfold media_type_max_length, two64 in *; lia).
-  rewrite (read_bytes_ok cfg (br + 1 + 1) (len mt)) by (try reflexivity; lia).
-  destruct (dec_chunks_ok 8 cs Hcs (chunks_fuel (br + 1 + 1 + len mt, enc_chunks cs ++ rest)) (br + 1 + 1 + len mt) rest)
+  rewrite (read_bytes_ok cfg _ (len mt)) by (try reflexivity; lia).
+  set (u := len (uleb_encode (len mt))) in *.
+  destruct (dec_chunks_ok 8 cs Hcs (chunks_fuel (br + 1 + 1 + u + len mt, enc_chunks cs ++ rest)) (br + 1 + 1 + u + len mt) rest)
     as (br' & E1 & E2); [apply chunks_fuel_enough | unfold fits; norm_len; lia|].
   rewrite E1. eexists; split; [reflexivity|]. norm_len. lia.
 Qed.
@@ -1123,9 +1163,870 @@ Proof.
   tok_start br rest Hfit. change (classify cbeTypeCustomType) with KCustom.
   unfold dec_custom. rewrite <- !app_assoc.
   rewrite read_uleb_ok by (try exact Hc; unfold custom_type_max, two64 in *; lia).
-  destruct (dec_chunks_ok 8 cs Hcs (chunks_fuel (br + 1, enc_chunks cs ++ rest)) (br + 1) rest)
+  set (u := len (uleb_encode ct)) in *.
+  destruct (dec_chunks_ok 8 cs Hcs (chunks_fuel (br + 1 + u, enc_chunks cs ++ rest)) (br + 1 + u) rest)
     as (br' & E1 & E2); [apply chunks_fuel_enough | unfold fits; norm_len; lia|].
   rewrite E1. eexists; split; [reflexivity|]. norm_len. lia.
 Qed.
 
 End Tokens3.
+
+(* ------------------------------------------------------------------ *)
+(** * 7. Tokens: finite decimal floats *)
+
+Section Tokens4.
+Variable cfg : dcfg.
+
+Definition norm_decimal_fin (neg : bool) (c : N) (e : Z) : event :=
+  if two63 <=? c then EBigDecimal (Some (DFin neg c e)) else EDecimal (DFin neg c e).
+
+Lemma cf_field_facts neg e :
+  (Z.abs e < 2147483648)%Z ->
+  let f := cf_field neg e in
+  f <= cf_max_encoded_exponent /\ N.odd f = neg /\ N.odd (f / 2) = (e <? 0)%Z /\ Z.of_N (f / 4) = Z.abs e /\
+  f <> 2 /\ f <> 3 /\ (f < 128 \/ 4 <= f).
+Proof.
+  intro He. cbv zeta. unfold cf_field, cf_max_encoded_exponent.
+  set (a := Z.abs_N e). assert (Ha : a < 2147483648) by (unfold a; lia).
+  assert (Hz : a = 0 -> (e <? 0)%Z = false) by (intro E; apply Z.ltb_ge; unfold a in E; lia).
+  set (x := sign_bit (e <? 0)%Z). set (y := sign_bit neg).
+  assert (Hx : x < 2) by (unfold x; destruct (e <? 0)%Z; cbn; lia).
+  assert (Hy : y < 2) by (unfold y; destruct neg; cbn; lia).
+  replace (a * 4 + 2 * x + y) with (y + 2 * (x + 2 * a)) by lia.
+  repeat split.
+  - lia.
+  - rewrite N.odd_add_mul_2. unfold y. destruct neg; reflexivity.
+  - replace ((y + 2 * (x + 2 * a)) / 2) with (x + 2 * a).
+    + rewrite N.odd_add_mul_2. unfold x. destruct (e <? 0)%Z; reflexivity.
+    + symmetry. rewrite (N.mul_comm 2), N.div_add by discriminate. rewrite N.div_small by exact Hy. lia.
+  - replace ((y + 2 * (x + 2 * a)) / 4) with a.
+    + unfold a. lia.
+    + symmetry. replace (y + 2 * (x + 2 * a)) with ((y + 2 * x) + a * 4) by lia.
+      rewrite N.div_add by discriminate. rewrite N.div_small by lia. lia.
+  - destruct (N.eq_dec a 0) as [E|E]; [|lia]. specialize (Hz E). unfold x. rewrite Hz. cbn. lia.
+  - destruct (N.eq_dec a 0) as [E|E]; [|lia]. specialize (Hz E). unfold x. rewrite Hz. cbn. lia.
+  - lia.
+Qed.
+
+Lemma tok_decimal_fin neg c e :
+  (Z.abs e < 2147483648)%Z ->
+  tok_ok cfg (cbeTypeDecimal :: uleb_encode (cf_field neg e) ++ uleb_encode c)
+         [if two63 <=? c then EBigDecimal (Some (DFin neg c e)) else EDecimal (DFin (neg && negb (c =? 0)) c e)].
+Proof.
+  intro He. destruct (cf_field_facts neg e He) as (F1 & F2 & F3 & F4 & F5 & F6 & F7).
+  set (f := cf_field neg e) in *.
+  assert (Hf64 : f < two64) by (unfold cf_max_encoded_exponent, two64 in *; lia).
+  tok_start br rest Hfit. rewrite classify_decimal. unfold dec_decimal. rewrite <- app_assoc.
+  rewrite read_uleb_raw_ok by lia. rewrite uleb_not_big by exact Hf64.
+  assert (Hspecial : forall k, ((length (uleb_encode f) =? 1)%nat && (f =? k)) = false \/ k < 2 \/ 3 < k).
+  { intro k. destruct (N.eqb_spec f k) as [E|E]; [|left; apply andb_false_r]. right. lia. }
+  replace ((length (uleb_encode f) =? 1)%nat && (f =? 2)) with false
+    by (symmetry; apply andb_false_iff; right; apply N.eqb_neq; exact F5).
+  replace ((length (uleb_encode f) =? 1)%nat && (f =? 3)) with false
+    by (symmetry; apply andb_false_iff; right; apply N.eqb_neq; exact F6).
+  assert (H2 : forall k, k < 4 -> ((length (uleb_encode f) =? 2)%nat && (f =? k)) = false).
+  { intros k Hk. destruct F7 as [S|S].
+    - rewrite uleb_encode_small by exact S. reflexivity.
+    - apply andb_false_iff. right. apply N.eqb_neq. lia. }
+  rewrite !H2 by lia.
+  replace (cf_max_encoded_exponent <? f) with false by (symmetry; apply N.ltb_ge; exact F1).
+  rewrite read_uleb_raw_ok by lia. rewrite F2, F3, F4.
+  replace (if (e <? 0)%Z then (- Z.abs e)%Z else Z.abs e) with e
+    by (destruct (Z.ltb_spec e 0); lia).
+  destruct (N.leb_spec two63 c) as [Hc|Hc].
+  - rewrite orb_true_r. unfold tok_one. tok_done.
+  - rewrite uleb_not_big by (unfold two63, two64 in *; lia). cbn [orb]. unfold tok_one. tok_done.
+Qed.
+
+End Tokens4.
+
+(* ------------------------------------------------------------------ *)
+(** * 8. Re-encoding what the decoder reports *)
+
+Definition idle (st : enc_state) : Prop := es_try_small st = false.
+
+(* [es] encode to [B] from any state in which no array header is pending, and leave such a state *)
+Definition encodes (es : list event) (B : bytes) : Prop :=
+  forall st, idle st -> exists st', cbe_encode_from st es = Some (st', B) /\ idle st'.
+
+Lemma cbe_encode_from_app st es1 es2 :
+  cbe_encode_from st (es1 ++ es2) =
+  match cbe_encode_from st es1 with
+  | Some (st1, b1) =>
+      match cbe_encode_from st1 es2 with
+      | Some (st2, b2) => Some (st2, b1 ++ b2)
+      | None => None
+      end
+  | None => None
+  end.
+Proof.
+  revert st; induction es1 as [|e r IH]; intro st; cbn [app cbe_encode_from].
+  - destruct (cbe_encode_from st es2) as [[st2 b2]|]; reflexivity.
+  - destruct (cbe_encode_event st e) as [[st1 b1]|]; [|reflexivity]. rewrite IH.
+    destruct (cbe_encode_from st1 r) as [[st2 b2]|]; [|reflexivity].
+    destruct (cbe_encode_from st2 es2) as [[st3 b3]|]; [|reflexivity].
+    rewrite app_assoc. reflexivity.
+Qed.
+
+Lemma encodes_nil : encodes [] [].
+Proof. intros st H. exists st. split; [reflexivity | exact H]. Qed.
+
+Lemma encodes_app es1 es2 B1 B2 : encodes es1 B1 -> encodes es2 B2 -> encodes (es1 ++ es2) (B1 ++ B2).
+Proof.
+  intros H1 H2 st Hst. destruct (H1 st Hst) as (st1 & E1 & I1). destruct (H2 st1 I1) as (st2 & E2 & I2).
+  exists st2. rewrite cbe_encode_from_app, E1, E2. split; [reflexivity | exact I2].
+Qed.
+
+Lemma encodes_one e B :
+  (forall st, idle st -> exists st', cbe_encode_event st e = Some (st', B) /\ idle st') -> encodes [e] B.
+Proof.
+  intros H st Hst. destruct (H st Hst) as (st' & E & I). exists st'. cbn [cbe_encode_from]. rewrite E.
+  rewrite app_nil_r. split; [reflexivity | exact I].
+Qed.
+
+(* an event that does not touch the encoder state *)
+Lemma encodes_keep e B : (forall st, cbe_encode_event st e = Some (st, B)) -> encodes [e] B.
+Proof. intro H. apply encodes_one. intros st Hst. exists st. split; [apply H | exact Hst]. Qed.
+
+Lemma wfb_of_wf b : bytes_wf b -> bytes_wfb b = true.
+Proof. apply bytes_wfb_wf. Qed.
+
+(* ---- integers ---- *)
+
+Lemma is_u64_true n : n < two64 -> is_u64 n = true.
+Proof. intro H. apply N.ltb_lt. exact H. Qed.
+
+Lemma encodes_norm_signed neg m : encodes [norm_signed neg m] (enc_signed neg m).
+Proof.
+  apply encodes_keep. intro st. unfold norm_signed, enc_signed, signed_z.
+  destruct (N.leb_spec m 100) as [H100|H100]; cbn [andb].
+  - assert (H64 : m < two64) by (unfold two64; lia).
+    replace (m <? two64) with true by (symmetry; apply N.ltb_lt; exact H64).
+    destruct neg; cbn [andb negb].
+    + destruct (N.eqb_spec m 0) as [E|E]; cbn [negb].
+      * replace (m <? two64) with true by (symmetry; apply N.ltb_lt; exact H64).
+        unfold cbe_encode_event. rewrite is_u64_true by exact H64. reflexivity.
+      * unfold cbe_encode_event, guard, opt_map, is_i64, enc_int.
+        replace ((-9223372036854775808 <=? - Z.of_N m)%Z && (- Z.of_N m <? 9223372036854775808)%Z) with true
+          by (symmetry; apply andb_true_iff; split; [apply Z.leb_le | apply Z.ltb_lt]; lia).
+        replace (0 <=? - Z.of_N m)%Z with false by (symmetry; apply Z.leb_gt; lia).
+        replace (Z.abs_N (- Z.of_N m)) with m by lia. reflexivity.
+    + unfold cbe_encode_event, guard, opt_map, is_i64, enc_int.
+      replace ((-9223372036854775808 <=? Z.of_N m)%Z && (Z.of_N m <? 9223372036854775808)%Z) with true
+        by (symmetry; apply andb_true_iff; split; [apply Z.leb_le | apply Z.ltb_lt]; lia).
+      replace (0 <=? Z.of_N m)%Z with true by (symmetry; apply Z.leb_le; lia).
+      rewrite N2Z.id. reflexivity.
+  - destruct (N.ltb_spec m two64) as [H64|H64].
+    + unfold cbe_encode_event. destruct neg; rewrite is_u64_true by exact H64; reflexivity.
+    + unfold cbe_encode_event, opt_map, enc_big_int. cbv zeta.
+      destruct neg.
+      * replace (- Z.of_N m <? 0)%Z with true by (symmetry; apply Z.ltb_lt; unfold two64 in H64; lia).
+        replace (Z.abs_N (- Z.of_N m)) with m by lia.
+        replace (m <? two64) with false by (symmetry; apply N.ltb_ge; exact H64). reflexivity.
+      * replace (Z.of_N m <? 0)%Z with false by (symmetry; apply Z.ltb_ge; lia).
+        replace (Z.abs_N (Z.of_N m)) with m by lia.
+        replace (m <? two64) with false by (symmetry; apply N.ltb_ge; exact H64). reflexivity.
+Qed.
+
+(* ---- floats ---- *)
+
+Lemma encodes_norm_float b : b < 2 ^ 64 -> encodes [norm_float b] (enc_float b).
+Proof.
+  intro Hb. apply encodes_keep. intro st. unfold norm_float.
+  destruct (FloatBits.f64_is_inf b) eqn:Hinf.
+  - unfold enc_float. rewrite Hinf. reflexivity.
+  - destruct (FloatBits.f64_is_nan b) eqn:Hnan.
+    + unfold enc_float. rewrite Hinf, Hnan. destruct (negb (FloatBits.f64_quiet_bit b)); reflexivity.
+    + destruct (f64_is_zero b) eqn:Hz.
+      * unfold enc_float. rewrite Hinf, Hnan, Hz. destruct (f64_sign b =? 1); reflexivity.
+      * unfold cbe_encode_event. rewrite is_u64_true by exact Hb. reflexivity.
+Qed.
+
+(* ------------------------------------------------------------------ *)
+(** * 9. Arrays through the chunked API, and re-encoding them *)
+
+(* a chunk as the caller delivers it: the data may come in several OnArrayData calls *)
+Definition rchunk := (N * bool * list bytes)%type.
+
+Definition merge (c : rchunk) : chunk := let '(n, more, ds) := c in (n, more, concat ds).
+
+Definition raw_chunk_events (cs : list rchunk) : list event :=
+  flat_map (fun c : rchunk => let '(n, more, ds) := c in EArrayChunk n more :: map EArrayData ds) cs.
+
+Definition rchunks_data_wf (cs : list rchunk) : Prop :=
+  Forall (fun c : rchunk => Forall bytes_wf (snd c)) cs.
+
+(* the decoder's chunks are delivered with at most one data event *)
+Definition unmerge (c : chunk) : rchunk :=
+  let '(n, more, d) := c in (n, more, if len d =? 0 then [] else [d]).
+
+Lemma merge_unmerge c : merge (unmerge c) = c.
+Proof.
+  destruct c as [[n more] d]. cbn [unmerge merge].
+  destruct (N.eqb_spec (len d) 0) as [E|E]; cbn [concat].
+  - apply len_zero in E. subst d. reflexivity.
+  - rewrite app_nil_r. reflexivity.
+Qed.
+
+Lemma map_merge_unmerge cs : map merge (map unmerge cs) = cs.
+Proof. rewrite map_map. rewrite <- (map_id cs) at 2. apply map_ext. apply merge_unmerge. Qed.
+
+Lemma chunk_events_raw cs : chunk_events cs = raw_chunk_events (map unmerge cs).
+Proof.
+  induction cs as [|[[n more] d] r IH]; [reflexivity|].
+  cbn [chunk_events map unmerge raw_chunk_events flat_map]. fold (raw_chunk_events (map unmerge r)).
+  rewrite <- IH. destruct (len d =? 0); reflexivity.
+Qed.
+
+Lemma unmerge_data_wf cs :
+  Forall (fun c : chunk => bytes_wf (snd c)) cs -> rchunks_data_wf (map unmerge cs).
+Proof.
+  intro H. unfold rchunks_data_wf. rewrite Forall_map. eapply Forall_impl; [|exact H].
+  intros [[n more] d] Hd. cbn [unmerge snd] in *. destruct (len d =? 0); repeat constructor. exact Hd.
+Qed.
+
+Lemma enc_data_events st ds :
+  Forall bytes_wf ds -> cbe_encode_from st (map EArrayData ds) = Some (st, concat ds).
+Proof.
+  induction 1 as [|d r Hd Hr IH]; [reflexivity|].
+  cbn [map cbe_encode_from]. unfold cbe_encode_event, guard, opt_map.
+  rewrite wfb_of_wf by exact Hd. rewrite IH. reflexivity.
+Qed.
+
+Lemma chunks_wf_counts width cs : chunks_wf width cs -> Forall (fun c : chunk => fst (fst c) < two63) cs.
+Proof. induction 1; constructor; cbn; auto. Qed.
+
+(* chunks after the first one: chunk header + data *)
+Lemma enc_later_chunks cs :
+  rchunks_data_wf cs -> Forall (fun c : rchunk => fst (fst c) < two64) cs ->
+  encodes (raw_chunk_events cs) (enc_chunks (map merge cs)).
+Proof.
+  intros Hd Hn. induction cs as [|[[n more] ds] r IH]; [apply encodes_nil|].
+  inversion Hd as [|? ? Hd1 Hd2]; subst. inversion Hn as [|? ? Hn1 Hn2]; subst. cbn [fst snd] in *.
+  cbn [raw_chunk_events flat_map map merge enc_chunks]. fold (raw_chunk_events r).
+  apply (encodes_app [EArrayChunk n more] (map EArrayData ds ++ raw_chunk_events r)
+                     (uleb_encode (chunk_header n more)) (concat ds ++ enc_chunks (map merge r))).
+  - apply encodes_one. intros st Hst. eexists. split; [apply chunk_later; [exact Hn1 | exact Hst] | reflexivity].
+  - apply encodes_app; [|apply IH; assumption].
+    intros st Hst. exists st. split; [apply enc_data_events; exact Hd1 | exact Hst].
+Qed.
+
+Lemma two63_lt_two64 n : n < two63 -> n < two64.
+Proof. unfold two63, two64. lia. Qed.
+
+Lemma counts_u64 cs : Forall (fun c : chunk => fst (fst c) < two63) (map merge cs) ->
+  Forall (fun c : rchunk => fst (fst c) < two64) cs.
+Proof.
+  rewrite Forall_map. apply Forall_impl. intros [[n more] ds]. cbn. apply two63_lt_two64.
+Qed.
+
+Lemma cbe_encode_from_cons st e r :
+  cbe_encode_from st (e :: r) =
+  match cbe_encode_event st e with
+  | None => None
+  | Some (st1, b1) =>
+      match cbe_encode_from st1 r with
+      | None => None
+      | Some (st2, b2) => Some (st2, b1 ++ b2)
+      end
+  end.
+Proof. reflexivity. Qed.
+
+Lemma encode_array_begin st t :
+  t < 256 -> cbe_encode_event st (EArrayBegin t) = Some ({| es_array_type := t; es_try_small := true |}, []).
+Proof. intro H. unfold cbe_encode_event, guard. apply N.ltb_lt in H. rewrite H. reflexivity. Qed.
+
+Definition is_short (t n : N) : bool := (n <=? cbeMaxSmallArrayLength) && has_short_form t.
+
+(* the bytes of a whole array delivered as the chunk list [cs] *)
+Definition array_bytes (t : N) (hd : bytes) (cs : list chunk) : bytes :=
+  match cs with
+  | [(n, false, d)] => if is_short t n then short_header t n ++ d else hd ++ enc_chunks cs
+  | _ => hd ++ enc_chunks cs
+  end.
+
+(* what the decoder reports for them *)
+Definition array_norm (t : N) (cs : list chunk) : list event :=
+  match cs with
+  | [(n, false, d)] => if is_short t n then [EArray t n d] else EArrayBegin t :: chunk_events cs
+  | _ => EArrayBegin t :: chunk_events cs
+  end.
+
+Lemma whole_header_cases t n hd :
+  arr_ok t = true -> enc_array_header t = Some hd ->
+  enc_whole_array_header t n =
+  Some (if is_short t n then short_header t n else hd ++ uleb_encode (chunk_header n false)).
+Proof.
+  intros Ht Hh. unfold is_short.
+  destruct (N.leb_spec n cbeMaxSmallArrayLength) as [L|L]; cbn [andb].
+  - destruct (has_short_form t) eqn:Hs.
+    + apply array_header_short; assumption.
+    + rewrite array_header_long by (right; split; [exact Hs | apply arr_ok_info; exact Ht]). rewrite Hh. reflexivity.
+  - rewrite array_header_long by (left; exact L). rewrite Hh. reflexivity.
+Qed.
+
+Lemma encodes_array_begin t hd cs :
+  arr_ok t = true -> enc_array_header t = Some hd ->
+  chunks_wf (element_bits t) (map merge cs) -> rchunks_data_wf cs ->
+  encodes (EArrayBegin t :: raw_chunk_events cs) (array_bytes t hd (map merge cs)).
+Proof.
+  intros Ht Hh Hwf Hd. pose proof (arr_ok_lt t Ht) as Hlt.
+  pose proof (counts_u64 cs (chunks_wf_counts _ _ Hwf)) as Hn.
+  destruct cs as [|[[n more] ds] r]; [inversion Hwf|].
+  inversion Hd as [|? ? Hd1 Hd2]; subst. inversion Hn as [|? ? Hn1 Hn2]; subst. cbn [fst snd] in *.
+  cbn [map merge] in Hwf |- *.
+  intros st Hst.
+  cbn [raw_chunk_events flat_map app]. fold (raw_chunk_events r).
+  rewrite cbe_encode_from_cons, encode_array_begin by exact Hlt. rewrite cbe_encode_from_cons.
+  destruct more.
+  - (* not final: regular header *)
+    assert (Hr : exists c r', map merge r = c :: r').
+    { inversion Hwf; subst. match goal with H : chunks_wf _ (map merge r) |- _ => inversion H; eauto end. }
+    destruct Hr as (c & r' & Er).
+    replace (array_bytes t hd ((n, true, concat ds) :: map merge r))
+      with (hd ++ enc_chunks ((n, true, concat ds) :: map merge r)) by (unfold array_bytes; rewrite Er; reflexivity).
+    rewrite chunk_first_not_final by exact Hn1. rewrite Hh. cbn [opt_map].
+    rewrite cbe_encode_from_app, enc_data_events by exact Hd1.
+    destruct (enc_later_chunks r Hd2 Hn2 {| es_array_type := t; es_try_small := false |} eq_refl) as (st' & E & I).
+    rewrite E. exists st'. split; [|exact I]. f_equal. f_equal.
+    cbn [enc_chunks app]. rewrite <- !app_assoc. reflexivity.
+  - (* final: it is the only chunk *)
+    assert (Er : r = []).
+    { inversion Hwf; subst. destruct r; [reflexivity | discriminate]. }
+    subst r. cbn [map array_bytes].
+    rewrite chunk_first_final by exact Hn1. rewrite (whole_header_cases t n hd Ht Hh). cbn [opt_map].
+    cbn [raw_chunk_events flat_map]. rewrite app_nil_r. rewrite enc_data_events by exact Hd1.
+    eexists. split.
+    { f_equal. apply f_equal2; [reflexivity|].
+      destruct (is_short t n); cbn [enc_chunks app]; rewrite <- ?app_assoc, ?app_nil_r; reflexivity. }
+    reflexivity.
+Qed.
+
+Section Units.
+Variable cfg : dcfg.
+
+Lemma tok_array t hd cs :
+  arr_ok t = true -> enc_array_header t = Some hd -> chunks_wf (element_bits t) cs ->
+  tok_ok cfg (array_bytes t hd cs) (array_norm t cs).
+Proof.
+  intros Ht Hh Hwf.
+  assert (G : tok_ok cfg (hd ++ enc_chunks cs) (EArrayBegin t :: chunk_events cs))
+    by (apply tok_long_array; assumption).
+  destruct cs as [|[[n more] d] r]; [exact G|]. destruct more; [exact G|]. destruct r; [|exact G].
+  cbn [array_bytes array_norm]. destruct (is_short t n) eqn:Hs; [|exact G].
+  unfold is_short in Hs. apply andb_true_iff in Hs as [H1 H2]. apply N.leb_le in H1.
+  inversion Hwf; subst.
+  apply tok_short_array; [apply arr_ok_lt; exact Ht | exact H1 | exact H2 | assumption].
+Qed.
+
+Lemma encodes_array_norm t hd cs :
+  arr_ok t = true -> enc_array_header t = Some hd -> chunks_wf (element_bits t) cs ->
+  Forall (fun c : chunk => bytes_wf (snd c)) cs ->
+  encodes (array_norm t cs) (array_bytes t hd cs).
+Proof.
+  intros Ht Hh Hwf Hd.
+  assert (G : encodes (EArrayBegin t :: chunk_events cs) (array_bytes t hd cs)).
+  { rewrite chunk_events_raw. rewrite <- (map_merge_unmerge cs) at 2.
+    apply encodes_array_begin; [exact Ht | exact Hh | rewrite map_merge_unmerge; exact Hwf | apply unmerge_data_wf; exact Hd]. }
+  destruct cs as [|[[n more] d] r]; [exact G|]. destruct more; [exact G|]. destruct r; [|exact G].
+  cbn [array_norm] in *. destruct (is_short t n) eqn:Hs; [|exact G].
+  cbn [array_bytes]. rewrite Hs. inversion Hwf; subst. inversion Hd; subst. cbn [snd] in *.
+  apply encodes_keep. intro st. unfold cbe_encode_event, guard, opt_map.
+  replace (t <? 256) with true by (symmetry; apply N.ltb_lt; apply arr_ok_lt; exact Ht).
+  rewrite is_u64_true by (apply two63_lt_two64; assumption). rewrite wfb_of_wf by assumption. cbn [andb].
+  rewrite (whole_header_cases t n hd Ht Hh), Hs. reflexivity.
+Qed.
+
+End Units.
+
+(* ------------------------------------------------------------------ *)
+(** * 10. Media and custom arrays through the chunked API *)
+
+Lemma encodes_media_begin mt cs :
+  bytes_wf mt -> chunks_wf 8 (map merge cs) -> rchunks_data_wf cs ->
+  encodes (EMediaBegin mt :: raw_chunk_events cs) (enc_media_begin mt ++ enc_chunks (map merge cs)).
+Proof.
+  intros Hm Hwf Hd.
+  apply (encodes_app [EMediaBegin mt] (raw_chunk_events cs)).
+  - apply encodes_one. intros st _. eexists. split.
+    + unfold cbe_encode_event, guard. rewrite wfb_of_wf by exact Hm. reflexivity.
+    + reflexivity.
+  - apply enc_later_chunks; [exact Hd | apply counts_u64; eapply chunks_wf_counts; exact Hwf].
+Qed.
+
+Lemma encodes_custom_begin t ct cs :
+  t < 256 -> ct < two64 -> chunks_wf 8 (map merge cs) -> rchunks_data_wf cs ->
+  encodes (ECustomBegin t ct :: raw_chunk_events cs) (enc_custom_begin ct ++ enc_chunks (map merge cs)).
+Proof.
+  intros Ht Hc Hwf Hd.
+  apply (encodes_app [ECustomBegin t ct] (raw_chunk_events cs)).
+  - apply encodes_one. intros st _. eexists. split.
+    + unfold cbe_encode_event, guard. apply N.ltb_lt in Ht. rewrite Ht, is_u64_true by exact Hc. reflexivity.
+    + reflexivity.
+  - apply enc_later_chunks; [exact Hd | apply counts_u64; eapply chunks_wf_counts; exact Hwf].
+Qed.
+
+(* ------------------------------------------------------------------ *)
+(** * 11. Single events: what the decoder reports for them, and that it re-encodes to the same bytes *)
+
+Definition norm_decimal (d : dfloat) : event :=
+  match d with
+  | DFin neg c e => if c =? 0 then (if neg then ENegInt 0 else EInt 0) else norm_decimal_fin neg c e
+  | _ => EDecimal d
+  end.
+
+Definition whole_chunks (n : N) (d : bytes) : list chunk := [(n, false, d)].
+
+Definition norm_event (e : event) : list event :=
+  match e with
+  | EComment _ _ => []
+  | EBool b => [if b then ETrue else EFalse]
+  | EPosInt n => [norm_signed false n]
+  | ENegInt n => [norm_signed true n]
+  | EInt z => [norm_signed (z <? 0)%Z (Z.abs_N z)]
+  | EBigInt None | EBigFloat None | EBigDecimal None => [ENull]
+  | EBigInt (Some z) => [norm_signed (z <? 0)%Z (Z.abs_N z)]
+  | EFloat b => [norm_float b]
+  | EBigFloat (Some (BInf neg)) => [EDecimal (DInf neg)]
+  | EBigFloat (Some (BFin neg mant exp _)) =>
+      match bigfloat_to_f64 neg mant exp with Some b => [norm_float b] | None => [e] end
+  | ENan s => [EDecimal (if s then DSNan else DQNan)]
+  | EDecimal d | EBigDecimal (Some d) => [norm_decimal d]
+  | EArray t n d => array_norm t (whole_chunks n d)
+  | EStringArray t d => array_norm t (whole_chunks (len d) d)
+  | EMedia mt d => EMediaBegin mt :: chunk_events (whole_chunks (len d) d)
+  | ECustomBin ct d => ECustomBegin cbeAT_CustomBinary ct :: chunk_events (whole_chunks (len d) d)
+  | _ => [e]
+  end.
+
+Definition two61 : N := 2305843009213693952.
+
+(* the single events covered (with the payload constraints the wire format imposes) *)
+Definition simple_ok (e : event) : Prop :=
+  match e with
+  | ENull | ETrue | EFalse | EBool _ | EList | EMap | EEdge | ENode | EEnd | EPadding | EComment _ _ => True
+  | EPosInt n | ENegInt n => n < two64
+  | EInt z => is_i64 z = true
+  | EBigInt None => True
+  | EBigInt (Some z) => Z.abs_N z < 256 ^ N.of_nat 1024
+  | EFloat b => b < 2 ^ 64
+  | EBigFloat None => True
+  | EBigFloat (Some (BInf _)) => True
+  | EBigFloat (Some (BFin neg mant exp _)) =>
+      match bigfloat_to_f64 neg mant exp with Some b => b < 2 ^ 64 | None => False end
+  | ENan _ => True
+  | EDecimal d => dfloat_small_ok d = true
+  | EBigDecimal None => True
+  | EBigDecimal (Some (DFin neg c e)) => c <> 0 /\ (Z.abs e < 2147483648)%Z
+  | EBigDecimal (Some _) => True
+  | EUid b => bytes_wf b /\ len b = 16
+  | ERecordType id | ERecord id | EMarker id | ERefLocal id => bytes_wf id /\ id_ok id
+  | EArray t n d => arr_ok t = true /\ n < two63 /\ bytes_wf d /\ len d = elem_bytes (element_bits t) n
+  | EStringArray t d => arr_ok t = true /\ element_bits t = 8 /\ bytes_wf d /\ len d < two61
+  | EMedia mt d => bytes_wf mt /\ len mt <= media_type_max_length /\ bytes_wf d /\ len d < two61
+  | ECustomBin ct d => ct <= custom_type_max /\ bytes_wf d /\ len d < two61
+  | _ => False
+  end.
+
+(* a group of events that makes up one token (or nothing at all, for comments) *)
+Definition unit_ok (cfg : dcfg) (es : list event) (B : bytes) (norm : list event) : Prop :=
+  encodes es B /\ encodes norm B /\ ((B = [] /\ norm = []) \/ (B <> [] /\ tok_ok cfg B norm)).
+
+Lemma elem_bytes_8 n : n < two61 -> elem_bytes 8 n = n.
+Proof.
+  intro H. unfold elem_bytes, u64, two61, two64 in *. cbn [andb N.eqb].
+  replace (8 =? 1) with false by reflexivity. cbn [andb].
+  rewrite N.mod_small by lia. rewrite N.div_mul by discriminate. reflexivity.
+Qed.
+
+Lemma whole_chunks_wf width n d :
+  n < two63 -> len d = elem_bytes width n -> chunks_wf width (whole_chunks n d).
+Proof. intros. apply cw_last; assumption. Qed.
+
+Lemma two61_lt_two63 n : n < two61 -> n < two63.
+Proof. unfold two61, two63. lia. Qed.
+
+Lemma two64_le_pow1024 : two64 <= 256 ^ N.of_nat 1024.
+Proof. change two64 with (256 ^ N.of_nat 8). apply pow256_mono. lia. Qed.
+
+Lemma cf_field_big_eq neg e : (Z.abs e < 2147483648)%Z -> cf_field_big neg e = cf_field neg e.
+Proof.
+  intro H. unfold cf_field_big, cf_field, u64, two64.
+  replace (e =? -2147483648)%Z with false by (symmetry; apply Z.eqb_neq; lia).
+  rewrite N.mod_small by lia. reflexivity.
+Qed.
+
+Lemma is_i32_abs e : (Z.abs e < 2147483648)%Z -> is_i32 e = true.
+Proof. intro H. unfold is_i32. apply andb_true_iff. split; [apply Z.leb_le | apply Z.ltb_lt]; lia. Qed.
+
+Lemma array_bytes_nonempty t hd cs :
+  arr_ok t = true -> enc_array_header t = Some hd -> array_bytes t hd cs <> [].
+Proof.
+  intros Ht Hh.
+  assert (Hhd : hd <> []).
+  { pose proof long_sweep as S. rewrite forallb_forall in S.
+    specialize (S t ltac:(apply nseq_In; pose proof (arr_ok_lt t Ht); cbn; lia)).
+    unfold long_check in S. rewrite Ht, Hh in S. apply andb_true_iff in S as [_ S].
+    destruct hd; [discriminate S | discriminate]. }
+  assert (Hsh : forall n d, short_header t n ++ d <> []).
+  { intros n d. unfold short_header. pose proof (arr_ok_info t Ht) as Hi.
+    destruct (array_info t) as [[[short has] p7]|]; [destruct p7; discriminate | contradiction]. }
+  assert (G : hd ++ enc_chunks cs <> []) by (destruct hd; [contradiction | discriminate]).
+  destruct cs as [|[[n more] d] r]; [exact G|]. destruct more; [exact G|]. destruct r; [|exact G].
+  cbn [array_bytes]. destruct (is_short t n); [apply Hsh | exact G].
+Qed.
+
+Section Units2.
+Variable cfg : dcfg.
+
+Ltac unit_intro B := exists B; unfold unit_ok.
+
+Lemma unit_byte e c : byte_token e = Some c -> (forall st, cbe_encode_event st e = Some (st, [c])) ->
+  unit_ok cfg [e] [c] [e].
+Proof.
+  intros H E. split; [apply encodes_keep; exact E|]. split; [apply encodes_keep; exact E|].
+  right. split; [discriminate | apply tok_byte; exact H].
+Qed.
+
+Lemma unit_signed e neg m :
+  m < 256 ^ N.of_nat 1024 -> (forall st, cbe_encode_event st e = Some (st, enc_signed neg m)) ->
+  unit_ok cfg [e] (enc_signed neg m) [norm_signed neg m].
+Proof.
+  intros Hm E. split; [apply encodes_keep; exact E|]. split; [apply encodes_norm_signed|].
+  right. split; [|apply tok_signed; exact Hm].
+  intro C. pose proof (length_enc_signed neg m) as L. rewrite C in L. cbn [length] in L.
+  destruct (chosen_form neg m); cbn [form_length] in L; lia.
+Qed.
+
+Lemma dfloat_small_ok_fin neg c e :
+  dfloat_small_ok (DFin neg c e) = true -> c <> 0 ->
+  (Z.abs e < 2147483648)%Z /\ (c < two63 \/ (neg = true /\ c = two63)).
+Proof.
+  unfold dfloat_small_ok. intros H Hc. replace (c =? 0) with false in H by (symmetry; apply N.eqb_neq; exact Hc).
+  apply andb_true_iff in H as [H H3]. apply andb_true_iff in H as [H1 H2].
+  unfold is_i32 in H1. apply andb_true_iff in H1 as [H1a H1b]. apply Z.leb_le in H1a. apply Z.ltb_lt in H1b.
+  apply negb_true_iff, Z.eqb_neq in H2. split; [lia|].
+  apply orb_true_iff in H3 as [H3|H3]; [left; apply N.ltb_lt; exact H3|].
+  apply andb_true_iff in H3 as [-> H3]. right. split; [reflexivity | apply N.eqb_eq; exact H3].
+Qed.
+
+Lemma encodes_norm_decimal_fin neg c e :
+  c <> 0 -> (Z.abs e < 2147483648)%Z -> (c < two63 \/ two63 <= c) ->
+  encodes [norm_decimal_fin neg c e] (cbeTypeDecimal :: uleb_encode (cf_field neg e) ++ uleb_encode c).
+Proof.
+  intros Hc He _. apply encodes_keep. intro st. unfold norm_decimal_fin.
+  destruct (N.leb_spec two63 c) as [L|L].
+  - unfold cbe_encode_event, opt_map, enc_big_decimal. rewrite is_i32_abs by exact He. cbn [negb].
+    replace (c =? 0) with false by (symmetry; apply N.eqb_neq; exact Hc).
+    rewrite cf_field_big_eq by exact He. reflexivity.
+  - unfold cbe_encode_event, opt_map, enc_decimal.
+    assert (Hok : dfloat_small_ok (DFin neg c e) = true).
+    { unfold dfloat_small_ok. replace (c =? 0) with false by (symmetry; apply N.eqb_neq; exact Hc).
+      rewrite is_i32_abs by exact He.
+      replace (e =? -2147483648)%Z with false by (symmetry; apply Z.eqb_neq; lia).
+      replace (c <? two63) with true by (symmetry; apply N.ltb_lt; exact L). reflexivity. }
+    rewrite Hok. cbn [negb]. replace (c =? 0) with false by (symmetry; apply N.eqb_neq; exact Hc). reflexivity.
+Qed.
+
+Lemma tok_norm_decimal_fin neg c e :
+  c <> 0 -> (Z.abs e < 2147483648)%Z ->
+  tok_ok cfg (cbeTypeDecimal :: uleb_encode (cf_field neg e) ++ uleb_encode c) [norm_decimal_fin neg c e].
+Proof.
+  intros Hc He. pose proof (tok_decimal_fin cfg neg c e He) as T. unfold norm_decimal_fin.
+  replace (c =? 0) with false in T by (symmetry; apply N.eqb_neq; exact Hc).
+  cbn [negb] in T. rewrite andb_true_r in T. exact T.
+Qed.
+
+Lemma unit_special (e : event) (B : bytes) (n : event) :
+  (forall st, cbe_encode_event st e = Some (st, B)) -> (forall st, cbe_encode_event st n = Some (st, B)) ->
+  B <> [] -> tok_ok cfg B [n] -> unit_ok cfg [e] B [n].
+Proof.
+  intros E1 E2 NE T. split; [apply encodes_keep; exact E1|]. split; [apply encodes_keep; exact E2|].
+  right. split; assumption.
+Qed.
+
+Lemma unit_identifier e (pre : bytes) id :
+  bytes_wf id -> pre <> [] ->
+  (forall st, cbe_encode_event st e = Some (st, pre ++ enc_identifier id)) ->
+  tok_ok cfg (pre ++ enc_identifier id) [e] ->
+  unit_ok cfg [e] (pre ++ enc_identifier id) [e].
+Proof.
+  intros Hw Hp E T. apply unit_special; try assumption.
+  destruct pre; [contradiction | discriminate].
+Qed.
+
+Theorem simple_unit e : simple_ok e -> exists B, unit_ok cfg [e] B (norm_event e).
+Proof.
+  destruct e; cbn [simple_ok norm_event]; intro H; try contradiction.
+  - (* EPadding *) exists [cbeTypePadding]. apply unit_byte; reflexivity.
+  - (* EComment *) exists []. split; [apply encodes_keep; reflexivity|]. split; [apply encodes_nil|]. left. split; reflexivity.
+  - (* ENull *) exists [cbeTypeNull]. apply unit_byte; reflexivity.
+  - (* EBool *) destruct b.
+    + exists [cbeTypeTrue]. apply unit_special; [reflexivity | reflexivity | discriminate | apply tok_byte; reflexivity].
+    + exists [cbeTypeFalse]. apply unit_special; [reflexivity | reflexivity | discriminate | apply tok_byte; reflexivity].
+  - exists [cbeTypeTrue]. apply unit_byte; reflexivity.
+  - exists [cbeTypeFalse]. apply unit_byte; reflexivity.
+  - (* EPosInt *) exists (enc_signed false n). apply unit_signed.
+    + pose proof two64_le_pow1024. lia.
+    + intro st. unfold cbe_encode_event. rewrite is_u64_true by exact H. rewrite enc_pos_int_signed by exact H. reflexivity.
+  - (* ENegInt *) exists (enc_signed true n). apply unit_signed.
+    + pose proof two64_le_pow1024. lia.
+    + intro st. unfold cbe_encode_event. rewrite is_u64_true by exact H. rewrite enc_neg_int_signed by exact H. reflexivity.
+  - (* EInt *) exists (enc_signed (z <? 0)%Z (Z.abs_N z)). apply unit_signed.
+    + pose proof two64_le_pow1024. unfold is_i64 in H. apply andb_true_iff in H as [H1 H2].
+      apply Z.leb_le in H1. apply Z.ltb_lt in H2. unfold two64 in *. lia.
+    + intro st. unfold cbe_encode_event. rewrite H. rewrite enc_int_signed by exact H. reflexivity.
+  - (* EBigInt *) destruct v as [z|].
+    + exists (enc_signed (z <? 0)%Z (Z.abs_N z)). apply unit_signed; [exact H|].
+      intro st. unfold cbe_encode_event. rewrite enc_big_int_signed. reflexivity.
+    + exists [cbeTypeNull]. apply unit_special; [reflexivity | reflexivity | discriminate | apply tok_byte; reflexivity].
+  - (* EFloat *) exists (enc_float bits). split.
+    + apply encodes_keep. intro st. unfold cbe_encode_event. rewrite is_u64_true by exact H. reflexivity.
+    + split; [apply encodes_norm_float; exact H|]. right. split; [|apply tok_float; exact H].
+      unfold enc_float. destruct (FloatBits.f64_is_inf bits); [discriminate|].
+      destruct (FloatBits.f64_is_nan bits); [discriminate|].
+      destruct (f64_is_zero bits); [destruct (f64_sign bits =? 1); discriminate|].
+      destruct (float_encode bits) as [[| |] x]; discriminate.
+  - (* EBigFloat *) destruct v as [f|].
+    + destruct f as [neg mant exp prec|neg].
+      * destruct (bigfloat_to_f64 neg mant exp) as [b|] eqn:Hb; [|contradiction].
+        exists (enc_float b). split.
+        -- apply encodes_keep. intro st. unfold cbe_encode_event, opt_map, enc_big_float. rewrite Hb. reflexivity.
+        -- split; [apply encodes_norm_float; exact H|]. right. split; [|apply tok_float; exact H].
+           unfold enc_float. destruct (FloatBits.f64_is_inf b); [discriminate|].
+           destruct (FloatBits.f64_is_nan b); [discriminate|].
+           destruct (f64_is_zero b); [destruct (f64_sign b =? 1); discriminate|].
+           destruct (float_encode b) as [[| |] x]; discriminate.
+      * exists (enc_infinity neg). apply unit_special; [reflexivity | reflexivity | discriminate | apply tok_infinity].
+    + exists [cbeTypeNull]. apply unit_special; [reflexivity | reflexivity | discriminate | apply tok_byte; reflexivity].
+  - (* EDecimal *) destruct d as [neg c e|neg| |]; cbn [norm_decimal].
+    + destruct (N.eqb_spec c 0) as [E0|E0].
+      * subst c. exists (enc_zero neg). apply unit_special.
+        -- intro st. unfold cbe_encode_event, opt_map, enc_decimal. rewrite H. reflexivity.
+        -- intro st. destruct neg; reflexivity.
+        -- destruct neg; discriminate.
+        -- apply tok_zero.
+      * destruct (dfloat_small_ok_fin neg c e H E0) as (He & Hc).
+        exists (cbeTypeDecimal :: uleb_encode (cf_field neg e) ++ uleb_encode c). split.
+        -- apply encodes_keep. intro st. unfold cbe_encode_event, opt_map, enc_decimal. rewrite H. cbn [negb].
+           replace (c =? 0) with false by (symmetry; apply N.eqb_neq; exact E0). reflexivity.
+        -- split; [apply encodes_norm_decimal_fin; [exact E0 | exact He | lia]|].
+           right. split; [discriminate | apply tok_norm_decimal_fin; assumption].
+    + exists (enc_infinity neg). apply unit_special; [reflexivity | reflexivity | discriminate | apply tok_infinity].
+    + exists (enc_nan false). apply unit_special; [reflexivity | reflexivity | discriminate | apply (tok_nan cfg false)].
+    + exists (enc_nan true). apply unit_special; [reflexivity | reflexivity | discriminate | apply (tok_nan cfg true)].
+  - (* EBigDecimal *) destruct v as [d|].
+    + destruct d as [neg c e|neg| |]; cbn [norm_decimal].
+      * destruct H as [Hc He]. replace (c =? 0) with false by (symmetry; apply N.eqb_neq; exact Hc).
+        exists (cbeTypeDecimal :: uleb_encode (cf_field neg e) ++ uleb_encode c). split.
+        -- apply encodes_keep. intro st. unfold cbe_encode_event, opt_map, enc_big_decimal.
+           rewrite is_i32_abs by exact He. cbn [negb].
+           replace (c =? 0) with false by (symmetry; apply N.eqb_neq; exact Hc).
+           rewrite cf_field_big_eq by exact He. reflexivity.
+        -- split; [apply encodes_norm_decimal_fin; [exact Hc | exact He | lia]|].
+           right. split; [discriminate | apply tok_norm_decimal_fin; assumption].
+      * exists (enc_infinity neg). apply unit_special; [reflexivity | reflexivity | discriminate | apply tok_infinity].
+      * exists (enc_nan false). apply unit_special; [reflexivity | reflexivity | discriminate | apply (tok_nan cfg false)].
+      * exists (enc_nan true). apply unit_special; [reflexivity | reflexivity | discriminate | apply (tok_nan cfg true)].
+    + exists [cbeTypeNull]. apply unit_special; [reflexivity | reflexivity | discriminate | apply tok_byte; reflexivity].
+  - (* ENan *) exists (enc_nan signaling). apply unit_special.
+    + reflexivity.
+    + intro st. destruct signaling; reflexivity.
+    + discriminate.
+    + apply tok_nan.
+  - (* EUid *) destruct H as [Hw Hl]. exists (cbeTypeUID :: b). apply unit_special.
+    + intro st. unfold cbe_encode_event, guard, opt_map. rewrite wfb_of_wf by exact Hw. reflexivity.
+    + intro st. unfold cbe_encode_event, guard, opt_map. rewrite wfb_of_wf by exact Hw. reflexivity.
+    + discriminate.
+    + apply tok_uid. exact Hl.
+  - exists [cbeTypeList]. apply unit_byte; reflexivity.
+  - exists [cbeTypeMap]. apply unit_byte; reflexivity.
+  - (* ERecordType *) destruct H as [Hw Hi]. exists ([cbeTypePlane7f; cbeTypeRecordType] ++ enc_identifier id).
+    apply unit_identifier; [exact Hw | discriminate | | apply tok_record_type; exact Hi].
+    intro st. unfold cbe_encode_event, guard, opt_map. rewrite wfb_of_wf by exact Hw. reflexivity.
+  - (* ERecord *) destruct H as [Hw Hi]. exists ([cbeTypeRecord] ++ enc_identifier id).
+    apply unit_identifier; [exact Hw | discriminate | | apply tok_record; exact Hi].
+    intro st. unfold cbe_encode_event, guard, opt_map. rewrite wfb_of_wf by exact Hw. reflexivity.
+  - exists [cbeTypeEdge]. apply unit_byte; reflexivity.
+  - exists [cbeTypeNode]. apply unit_byte; reflexivity.
+  - exists [cbeTypeEndContainer]. apply unit_byte; reflexivity.
+  - (* EMarker *) destruct H as [Hw Hi]. exists ([cbeTypePlane7f; cbeTypeMarker] ++ enc_identifier id).
+    apply unit_identifier; [exact Hw | discriminate | | apply tok_marker; exact Hi].
+    intro st. unfold cbe_encode_event, guard, opt_map. rewrite wfb_of_wf by exact Hw. reflexivity.
+  - (* ERefLocal *) destruct H as [Hw Hi]. exists ([cbeTypeLocalReference] ++ enc_identifier id).
+    apply unit_identifier; [exact Hw | discriminate | | apply tok_ref_local; exact Hi].
+    intro st. unfold cbe_encode_event, guard, opt_map. rewrite wfb_of_wf by exact Hw. reflexivity.
+  - (* EArray *) destruct H as (Ht & Hn & Hw & Hl). destruct (arr_ok_header t Ht) as [hd Hh].
+    pose proof (whole_chunks_wf (element_bits t) count data Hn Hl) as Hwf.
+    exists (array_bytes t hd (whole_chunks count data)). split; [|split].
+    + apply encodes_keep. intro st. unfold cbe_encode_event, guard, opt_map.
+      replace (t <? 256) with true by (symmetry; apply N.ltb_lt; apply arr_ok_lt; exact Ht).
+      rewrite is_u64_true by (apply two63_lt_two64; exact Hn). rewrite wfb_of_wf by exact Hw. cbn [andb].
+      rewrite (whole_header_cases t count hd Ht Hh). unfold whole_chunks, array_bytes.
+      destruct (is_short t count); cbn [enc_chunks]; rewrite <- ?app_assoc, ?app_nil_r; reflexivity.
+    + apply encodes_array_norm; [exact Ht | exact Hh | exact Hwf | repeat constructor; exact Hw].
+    + right. split; [apply array_bytes_nonempty; assumption | apply tok_array; assumption].
+  - (* EStringArray *) destruct H as (Ht & He & Hw & Hl). destruct (arr_ok_header t Ht) as [hd Hh].
+    assert (Hl' : len data = elem_bytes (element_bits t) (len data)) by (rewrite He, elem_bytes_8 by exact Hl; reflexivity).
+    pose proof (whole_chunks_wf (element_bits t) (len data) data (two61_lt_two63 _ Hl) Hl') as Hwf.
+    exists (array_bytes t hd (whole_chunks (len data) data)). split; [|split].
+    + apply encodes_keep. intro st. unfold cbe_encode_event, guard, opt_map.
+      replace (t <? 256) with true by (symmetry; apply N.ltb_lt; apply arr_ok_lt; exact Ht).
+      rewrite wfb_of_wf by exact Hw. cbn [andb].
+      rewrite (whole_header_cases t (len data) hd Ht Hh). unfold whole_chunks, array_bytes.
+      destruct (is_short t (len data)); cbn [enc_chunks]; rewrite <- ?app_assoc, ?app_nil_r; reflexivity.
+    + apply encodes_array_norm; [exact Ht | exact Hh | exact Hwf | repeat constructor; exact Hw].
+    + right. split; [apply array_bytes_nonempty; assumption | apply tok_array; assumption].
+  - (* EMedia *) destruct H as (Hwm & Hlm & Hw & Hl).
+    assert (Hwf : chunks_wf 8 (whole_chunks (len data) data))
+      by (apply whole_chunks_wf; [apply two61_lt_two63; exact Hl | rewrite elem_bytes_8 by exact Hl; reflexivity]).
+    exists (enc_media_begin mediatype ++ enc_chunks (whole_chunks (len data) data)). split; [|split].
+    + apply encodes_one. intros st _. eexists. split.
+      * unfold cbe_encode_event, guard. rewrite !wfb_of_wf by assumption. cbn [andb enc_chunks whole_chunks].
+        rewrite app_nil_r. reflexivity.
+      * reflexivity.
+    + rewrite chunk_events_raw. rewrite <- (map_merge_unmerge (whole_chunks (len data) data)) at 2.
+      apply encodes_media_begin; [exact Hwm | rewrite map_merge_unmerge; exact Hwf|].
+      apply unmerge_data_wf. repeat constructor. exact Hw.
+    + right. split; [unfold enc_media_begin; discriminate|]. apply tok_media; assumption.
+  - (* ECustomBin *) destruct H as (Hc & Hw & Hl).
+    assert (Hwf : chunks_wf 8 (whole_chunks (len data) data))
+      by (apply whole_chunks_wf; [apply two61_lt_two63; exact Hl | rewrite elem_bytes_8 by exact Hl; reflexivity]).
+    assert (Hc64 : ct < two64) by (unfold custom_type_max, two64 in *; lia).
+    exists (enc_custom_begin ct ++ enc_chunks (whole_chunks (len data) data)). split; [|split].
+    + apply encodes_keep. intro st. unfold cbe_encode_event, guard, opt_map.
+      rewrite is_u64_true by exact Hc64. rewrite wfb_of_wf by exact Hw. cbn [andb enc_chunks whole_chunks].
+      rewrite app_nil_r. reflexivity.
+    + rewrite chunk_events_raw. rewrite <- (map_merge_unmerge (whole_chunks (len data) data)) at 2.
+      apply encodes_custom_begin; [reflexivity | exact Hc64 | rewrite map_merge_unmerge; exact Hwf|].
+      apply unmerge_data_wf. repeat constructor. exact Hw.
+    + right. split; [unfold enc_custom_begin; discriminate|]. apply tok_custom; assumption.
+Qed.
+
+End Units2.
+
+(* ------------------------------------------------------------------ *)
+(** * 12. Streams, and the idempotence theorem *)
+
+(* One unit of a stream: a single covered event, or an array delivered through
+   the chunked API (begin, then per chunk: the chunk event and its data events). *)
+Inductive wf_unit : list event -> Prop :=
+| wu_simple e : simple_ok e -> wf_unit [e]
+| wu_array t cs :
+    arr_ok t = true -> chunks_wf (element_bits t) (map merge cs) -> rchunks_data_wf cs ->
+    wf_unit (EArrayBegin t :: raw_chunk_events cs)
+| wu_media mt cs :
+    bytes_wf mt -> len mt <= media_type_max_length -> chunks_wf 8 (map merge cs) -> rchunks_data_wf cs ->
+    wf_unit (EMediaBegin mt :: raw_chunk_events cs)
+| wu_custom t ct cs :
+    t < 256 -> ct <= custom_type_max -> chunks_wf 8 (map merge cs) -> rchunks_data_wf cs ->
+    wf_unit (ECustomBegin t ct :: raw_chunk_events cs).
+
+Inductive wf_body : list event -> Prop :=
+| wb_nil : wf_body []
+| wb_app u r : wf_unit u -> wf_body r -> wf_body (u ++ r).
+
+Lemma merged_data_wf cs : rchunks_data_wf cs -> Forall (fun c : chunk => bytes_wf (snd c)) (map merge cs).
+Proof.
+  unfold rchunks_data_wf. intro H. rewrite Forall_map. eapply Forall_impl; [|exact H].
+  intros [[n more] ds] Hd. cbn [merge snd] in *.
+  induction Hd as [|d r Hd Hr IH]; cbn [concat]; [constructor|]. apply bytes_wf_app. split; assumption.
+Qed.
+
+Section Streams.
+Variable cfg : dcfg.
+
+Theorem unit_roundtrip es : wf_unit es -> exists B norm, unit_ok cfg es B norm.
+Proof.
+  intro H. destruct H as [e He | t cs Ht Hwf Hd | mt cs Hm Hl Hwf Hd | t ct cs Ht Hc Hwf Hd].
+  - destruct (simple_unit cfg e He) as [B U]. eauto.
+  - destruct (arr_ok_header t Ht) as [hd Hh].
+    exists (array_bytes t hd (map merge cs)), (array_norm t (map merge cs)). split; [|split].
+    + apply encodes_array_begin; assumption.
+    + apply encodes_array_norm; [exact Ht | exact Hh | exact Hwf | apply merged_data_wf; exact Hd].
+    + right. split; [apply array_bytes_nonempty; assumption | apply tok_array; assumption].
+  - exists (enc_media_begin mt ++ enc_chunks (map merge cs)), (EMediaBegin mt :: chunk_events (map merge cs)).
+    split; [|split].
+    + apply encodes_media_begin; assumption.
+    + rewrite chunk_events_raw. rewrite <- (map_merge_unmerge (map merge cs)) at 2.
+      apply encodes_media_begin; [exact Hm | rewrite map_merge_unmerge; exact Hwf|].
+      apply unmerge_data_wf. apply merged_data_wf. exact Hd.
+    + right. split; [unfold enc_media_begin; discriminate | apply tok_media; assumption].
+  - assert (Hc64 : ct < two64) by (unfold custom_type_max, two64 in *; lia).
+    exists (enc_custom_begin ct ++ enc_chunks (map merge cs)), (ECustomBegin cbeAT_CustomBinary ct :: chunk_events (map merge cs)).
+    split; [|split].
+    + apply encodes_custom_begin; assumption.
+    + rewrite chunk_events_raw. rewrite <- (map_merge_unmerge (map merge cs)) at 2.
+      apply encodes_custom_begin; [reflexivity | exact Hc64 | rewrite map_merge_unmerge; exact Hwf|].
+      apply unmerge_data_wf. apply merged_data_wf. exact Hd.
+    + right. split; [unfold enc_custom_begin; discriminate | apply tok_custom; assumption].
+Qed.
+
+Lemma dec_loop_nil fuel br : dec_loop cfg fuel (br, []) = ([EEndDoc], DOk).
+Proof. destruct fuel; reflexivity. Qed.
+
+Lemma dec_loop_token fuel br tok rest evs :
+  tok <> [] -> tok_ok cfg tok evs -> fits cfg br (tok ++ rest) ->
+  exists br', br' <= br + len tok /\
+    dec_loop cfg (S fuel) (br, tok ++ rest) =
+    (let '(evs', r) := dec_loop cfg fuel (br', rest) in (evs ++ evs', r)).
+Proof.
+  intros NE T Hfit. destruct (T br rest Hfit) as (br' & E & L). exists br'. split; [exact L|].
+  destruct tok as [|x tok]; [contradiction|]. cbn [app dec_loop snd] in *. rewrite E. reflexivity.
+Qed.
+
+Theorem body_roundtrip es :
+  wf_body es ->
+  exists B norm, encodes es B /\ encodes norm B /\
+    forall fuel br, (length B <= fuel)%nat -> fits cfg br B ->
+      dec_loop cfg fuel (br, B) = (norm ++ [EEndDoc], DOk).
+Proof.
+  induction 1 as [|u r Hu Hr IH].
+  - exists [], []. split; [apply encodes_nil|]. split; [apply encodes_nil|]. intros. apply dec_loop_nil.
+  - destruct (unit_roundtrip u Hu) as (B1 & n1 & E1 & N1 & T1). destruct IH as (B2 & n2 & E2 & N2 & D2).
+    exists (B1 ++ B2), (n1 ++ n2). split; [apply encodes_app; assumption|]. split; [apply encodes_app; assumption|].
+    intros fuel br Hfuel Hfit. destruct T1 as [[-> ->]|[NE T]].
+    + cbn [app] in *. apply D2; assumption.
+    + destruct fuel as [|f].
+      { rewrite app_length in Hfuel. destruct B1; [contradiction | cbn [length] in Hfuel; lia]. }
+      destruct (dec_loop_token f br B1 B2 n1 NE T Hfit) as (br' & L & E).
+      etransitivity; [exact E|].
+      assert (D2' : dec_loop cfg f (br', B2) = (n2 ++ [EEndDoc], DOk)).
+      { apply D2.
+        - rewrite app_length in Hfuel. destruct B1; [contradiction | cbn [length] in Hfuel; lia].
+        - unfold fits in *. rewrite len_app in Hfit. lia. }
+      unfold rstate, bytes, byte in *. rewrite D2'. rewrite <- app_assoc. reflexivity.
+Qed.
+
+(* Decoding a document the encoder produced for a covered stream succeeds, and
+   encoding the decoded events again reproduces the document byte for byte. *)
+Theorem reencode_idempotent v body doc :
+  v < two64 -> v <> 1 -> wf_body body ->
+  cbe_encode (EBeginDoc :: EVersion v :: body ++ [EEndDoc]) = Some doc ->
+  len doc <= max_doc_size cfg ->
+  snd (cbe_decode cfg doc) = DOk /\ cbe_encode (fst (cbe_decode cfg doc)) = Some doc.
+Proof.
+  intros Hv Hv1 Hb Henc Hlen.
+  destruct (body_roundtrip body Hb) as (B & norm & EB & EN & D).
+  assert (Hdoc : forall es, encodes es B ->
+            cbe_encode (EBeginDoc :: EVersion v :: es ++ [EEndDoc]) = Some (cbeSignatureByte :: uleb_encode v ++ B)).
+  { intros es Ees. unfold cbe_encode. rewrite cbe_encode_from_cons.
+    change (cbe_encode_event enc_init EBeginDoc) with (Some (enc_init, [cbeSignatureByte])). cbv beta iota.
+    assert (Ev : cbe_encode_event enc_init (EVersion v) = Some (enc_init, uleb_encode v))
+      by (unfold cbe_encode_event, guard, opt_map; rewrite is_u64_true by exact Hv; reflexivity).
+    rewrite cbe_encode_from_cons, Ev. cbv beta iota. rewrite cbe_encode_from_app.
+    destruct (Ees enc_init eq_refl) as (st' & E & I). rewrite E.
+    cbn [cbe_encode_from]. unfold cbe_encode_event. unfold idle in I. rewrite I. cbn [opt_map snd].
+    rewrite !app_nil_r. reflexivity. }
+  rewrite (Hdoc body EB) in Henc. injection Henc as <-.
+  unfold fits in *. norm_len_in Hlen.
+  assert (Hdec : cbe_decode cfg (cbeSignatureByte :: uleb_encode v ++ B) = (EBeginDoc :: EVersion v :: norm ++ [EEndDoc], DOk)).
+  { unfold cbe_decode. rewrite read_u8_ok by lia.
+    replace (negb (cbeSignatureByte =? cbeSignatureByte)) with false by reflexivity.
+    rewrite read_uleb_ok by (try exact Hv; unfold max_u64, two64 in *; lia).
+    replace (v =? 1) with false by (symmetry; apply N.eqb_neq; exact Hv1).
+    cbn [snd]. rewrite D; [reflexivity | lia | unfold fits; lia]. }
+  unfold rstate, bytes, byte in *. rewrite Hdec. cbn [fst snd]. split; [reflexivity|]. apply Hdoc. exact EN.
+Qed.
+
+End Streams.
